@@ -9,6 +9,7 @@ mod channel;
 mod checks;
 mod coop;
 mod faultrng;
+mod forge;
 mod free;
 mod group;
 mod miri;
